@@ -112,6 +112,21 @@ theorem sound_first_contact (C : Crypto) (bs : Array Bytes) (wfork : Nat) (Signe
     Sound.Collision C ∨ Sound.TreeCollision C ∨ b.value = bs.getD b.index [] :=
   UpgradeSound.first_contact_sound C bs wfork Signed t f pk p b u cs' hb hs hu hadd hfresh hunf hsig hlen hsize hwf hb1 hb2 hT hauth hv
 
+/-- … and with additional nodes (a partial upgrade from 0, completed by the writer up to its own length): the
+    block is the writer's block at that index within the adopted length -/
+theorem sound_first_contact_extra (C : Crypto) (bs : Array Bytes) (wfork : Nat) (Signed : Bytes → Prop)
+    (t : Tree) (f : File) (pk : Bytes) (p : Proof) (b : Codec.DataBlock) (u : Codec.DataUpgrade) (cs' : Changeset)
+    (hb : p.block = some b) (hs : p.seek = none) (hu : p.upgrade = some u)
+    (hfresh : t.changeset.roots = [])
+    (hunf : ∀ m sig, C.verify pk m sig = true → Signed m)
+    (hsig : ∀ m, Signed m → ∃ n, n ≤ bs.size ∧ m = RefTree.signableOf C (bs.extract 0 n) wfork)
+    (hlen : ∀ x, (C.tree x).length = 32) (hsize : bs.size < 2 ^ 64) (hwf : wfork < 2 ^ 64)
+    (hb1 : cs'.length < 2 ^ 64) (hb2 : p.fork < 2 ^ 64) (hT : u.start + u.length < 2 ^ 64)
+    (hauth : Sound.StoreAuthentic C bs t f)
+    (hv : t.verifyProof C f p pk = .ok cs') :
+    Sound.Collision C ∨ Sound.TreeCollision C ∨ b.value = bs.getD b.index [] ∨ b.value = (bs.extract 0 cs'.length).getD b.index [] :=
+  UpgradeSound.first_contact_sound_extra C bs wfork Signed t f pk p b u cs' hb hs hu hfresh hunf hsig hlen hsize hwf hb1 hb2 hT hauth hv
+
 /-- non-vacuity: an empty tree has no roots and an empty store is trivially authentic -/
 example (C : Crypto) (bs : Array Bytes) : ({} : Tree).changeset.roots = [] ∧ Sound.StoreAuthentic C bs {} File.empty := by
   refine ⟨rfl, ?_⟩
